@@ -50,7 +50,7 @@ EXACT = [U("ExactNode.get_service_time"), U("ExactArrivalNode.inter_arrival"), U
 PROPS = {
     "C01": dict(units=TRANSFER + ARRIVAL[:4]),
     "C02": dict(units=[U("Simulation.find_next_active_node"), U("ArrivalNode.find_next_event_date"), U("Node.begin_service_if_possible_change_shift"),
-                       U("Node.interrupt_service")] + NEXT_EVENT + START +
+                       U("Node.interrupt_service"), U("Node.preempt")] + NEXT_EVENT + START +
                 [U("Node.release"), U("Node.renege"), U("Node.decide_class_change")] + LOOPS[:3]),
     "C03": dict(units=[U("Node.release"), U("Node.renege"), U("Node.finish_service"), U("Node.accept"), U("ArrivalNode.have_event"),
                        U("Node.begin_interrupted_individuals_service")]),
@@ -76,7 +76,7 @@ PROPS = {
     "C12": dict(units=SCHEDULES + [U("Node.decide_preempt"), U("Node.decide_next_event"), U("Node.update_next_end_service_without_server"), U("Node.update_next_event_date"),
                        U("Node.begin_interrupted_individuals_service"), U("Node.begin_service_if_possible_release"),
                        U("Node.release_blocked_individual")]),
-    "C13": dict(units=[U("NodeRouting.next_node_for_jockeying"), U("ProcessBased.next_node_for_jockeying"), U("NetworkRouting.next_node_for_jockeying"),
+    "C13": dict(units=[U("Node.preempt"), U("NodeRouting.next_node_for_jockeying"), U("ProcessBased.next_node_for_jockeying"), U("NetworkRouting.next_node_for_jockeying"),
                        U("Node.decide_next_event"), U("Node.update_next_renege_time"), U("Node.update_next_event_date"),
                        U("Node.renege"), U("Node.begin_service_if_possible_accept"), U("Node.accept"), U("ArrivalNode.decide_baulk")]),
     "C14": dict(units=KERNELS + NEXT_EVENT + START + TRANSFER + ARRIVAL + LOOPS + STATS + [U("StateTracker.timestamp"), U("Node.preempt"), U("Node.decide_preempt"), U("Node.change_customer_class_while_waiting"), U("Node.__init__")] + EXACT + SCHEDULES),
